@@ -3,3 +3,6 @@ import SnapraidVerif.GF256.Field
 import SnapraidVerif.Raid.Gen
 import SnapraidVerif.Raid.Mds
 import SnapraidVerif.Raid.Cauchy
+import SnapraidVerif.Raid.Tables
+import SnapraidVerif.Raid.Spec
+import SnapraidVerif.Props.C02
